@@ -581,6 +581,34 @@ example : ([2, 3] : List Nat).length = ([3, 2] : List Nat).length ∧
       = fineSizes [2, 3] [3, 2] := by
   decide
 
+/-- **The index map of binning** (what "conserves" does not say: *which* fine samples a coarse pixel adds up).
+Pixel `c` (multi-index, slowest axis first) of the binned array is the sum of the fine samples over the box
+`c·s + r`, `r_k < s_k`: `boxSums` is the closed form `Σ_{r_0<s_0} Σ_{r_1<s_1} … v[flatIdx fine (c·s + r)]`
+(Model/Binning.lean; itself run by the driver op `binpix` and compared with the pixel the real code returns).
+A `binNDs` that permuted or mis-grouped pixels would violate this theorem. -/
+theorem bins_pixel (dims ss c : List Nat) (hl : ss.length = dims.length) (hc : InBounds dims c) (v : List K)
+    (h : v.length = fineSizes ss dims) :
+    (binNDs ss dims v).getD (flatIdx dims c) 0 = boxSums dims ss c (fun f => v.getD f 0) :=
+  binNDs_getD dims ss c hl hc v h
+
+/-- the same for one common factor `s` -/
+theorem bin_pixel (s : Nat) (dims c : List Nat) (hc : InBounds dims c) (v : List K)
+    (h : v.length = fineSize s dims) :
+    (binND s dims v).getD (flatIdx dims c) 0 = boxSums dims (dims.map fun _ => s) c (fun f => v.getD f 0) :=
+  binND_getD s dims c hc v h
+
+/-- two dimensions written out: pixel `(cy, cx)` of the `ny × nx` image is
+`Σ_{ry<sy} Σ_{rx<sx} v[(cy·sy + ry)·(nx·sx) + (cx·sx + rx)]` -/
+theorem bins_pixel_2d (ny nx sy sx cy cx : Nat) (hy : cy < ny) (hx : cx < nx) (v : List K)
+    (h : v.length = ny * sy * (nx * sx)) :
+    (binNDs [sy, sx] [ny, nx] v).getD (cy * nx + cx) 0 =
+      ((List.range sy).map fun ry => ((List.range sx).map fun rx =>
+        v.getD ((cy * sy + ry) * (nx * sx) + (cx * sx + rx)) 0).sum).sum := by
+  have := bins_pixel [ny, nx] [sy, sx] [cy, cx] rfl ⟨hy, hx, trivial⟩ v (by simp [fineSizes, h])
+  simpa [flatIdx, boxSums, size, fineSizes] using this
+
+example : InBounds [2, 3] [1, 2] ∧ ¬ InBounds [2, 3] [1, 3] := by decide
+
 /-- **Tensor components are binned independently**: binning the stacked components equals
 stacking the binned components. -/
 theorem bin_tensor_independent (s : Nat) (dims : List Nat) (comps : List (List K))
